@@ -1,68 +1,36 @@
+# C19 - POP3 server (qmail-pop3d.c, qmail-popup.c, maildir.c, commands.c)
+#
+# kills: (hand-made mutants of /repo in scratch worktrees; each reported as VIOLATION with a replay that
+#         reproduces natively, rc 1)
+#   P1 qmail-pop3d.c msgno: `u >= numm` -> `u > numm` (off by one)           -> session_step (out-of-bounds m[2], reply overflow)
+#   P2 pop3_dele: unlink(m[i].fn) at DELE instead of QUIT                      -> session_step ("nothing is removed before QUIT")
+#   P3 blast: leading-dot stuffing removed                                     -> retr_top
+#   P4 pop3_rset: marks not cleared                                            -> session_step
+#   P5 pop3_quit: unlinks the unmarked instead of the marked                   -> session_step
+#   P6 blast: final `"\r\n.\r\n"` -> `".\r\n"` (no extra blank line)           -> retr_top
+#   P7 pop3_top: `++limit` dropped (TOP sends one body line less)              -> retr_top
+#   P8 msgno: already-deleted check removed                                    -> session_step (DELE, LIST, UIDL, RETR classes)
+#   P9 pop3_quit: rename target "cur/X:2" instead of "cur/X:2,"               -> session_step
+#   Q1 qmail-popup.c pop3_pass: `if (!seenuser)` check removed                 -> popup_commands
+#   Q2 doanddie: password written without its NUL                              -> popup_auth
+#   Q3 pop3commands: extra verb "stat" honoured before authentication          -> popup_commands
+#   Q4 qmail-pop3d.c main: getuid() check moved behind chdir                   -> root_refused
+#   Q5 pop3_apop: user length one short                                        -> popup_commands
+#   Q6 doanddie: hostname missing from the timestamp                           -> popup_auth
+#   G1 getlist: cur/ not scanned   G2 prioq_insert: order reversed   G3 maildir.c append: dot files not skipped -> getlist
+import itertools
 from vlib import Obl, Prog
 
 POP3D = Prog("qmail-pop3d.c", nomain=True)
 
-def obligations(tier):
-    quick = tier == "quick"
-    return [
-        Obl("retr_top", "retr.c",
-            progs=[POP3D],
-            repo=["scan_ulong.c", "substdio.c", "stralloc_pend.c"],
-            lib=["ideal_substdio.c", "ideal_getln.c", "arena_stralloc.c"],
-            defines={"ARENA_CAP": 16, "ARENA_SLOTS": 2},
-            sysrename=["_exit", "close"],
-            grid=[{"F": f} for f in ([6] if quick else [8])],
-            unwind=lambda p: {"blast": p["F"] + 2, "getln": p["F"] + 2, "substdio_put": 40, "scan_ulong": 4},
-            unwind_default=lambda p: 3 * p["F"] + 22,
-            timeout=900,
-            expect_witnesses=["retr", "top", "file_vanished", "retr_dot_line_and_partial_last_line", "top_cut_short", "top_0_header_only"]),
-        Obl("popup_commands", "popup_cmd.c",
-            progs=[Prog("qmail-popup.c", main_as="popup_main", cut=["doanddie"])],
-            repo=["commands.c", "str_chr.c", "case_diffs.c", "fmt_uint.c", "fmt_ulong.c", "byte_copy.c",
-                  "stralloc_pend.c", "stralloc_opys.c", "stralloc_opyb.c"],
-            lib=["ideal_substdio.c", "arena_stralloc.c"],
-            defines={"ARENA_CAP": 40, "ARENA_SLOTS": 2},
-            sysrename=["_exit", "getpid", "time"],
-            grid=POPUP_QUICK if quick else POPUP_THOROUGH,
-            unwind=lambda p: {"fmt_ulong": 12, "strlen": 42, "substdio_put": 42,
-                              "commands~    for (;;)": p["L1"] + p.get("L2", 0) + p.get("L3", 0) + 2,
-                              "commands~  for (;;)": (3 if p.get("L3") else 2 if p.get("L2") else 1) + 2},
-            unwind_default=lambda p: max(p["L1"] + p.get("L2", 0) + p.get("L3", 0) + 3, 26),
-            timeout=900,
-            cuts=["doanddie(user,userlen,pass) -> checks its arguments against the reference and ends the run; its own effect "
-                  "(user NUL pass NUL timestamp NUL on descriptor 3) is obligation popup_auth"],
-            expect_witnesses=popup_witnesses),
-        Obl("popup_auth", "popup_auth.c",
-            progs=[Prog("qmail-popup.c", nomain=True)],
-            repo=["fmt_uint.c", "fmt_ulong.c", "byte_zero.c", "substdio.c"],
-            lib=["ideal_substdio.c"],
-            sysrename=["_exit", "close", "pipe", "fork", "execvp", "getpid", "time"],
-            grid=[{"UL": u, "PL": q} for (u, q) in ([(1, 1), (3, 3), (2, 3)] if quick else [(u, q) for u in range(1, 6) for q in range(1, 6)])],
-            unwind={"fmt_ulong": 12, "strlen": 42, "substdio_put": 42, "byte_zero": 34},
-            unwind_default=30,
-            timeout=900,
-            expect_witnesses=["auth_ok", "auth_failed", "child_execs_checker", "fork_failed", "pipe_failed"]),
-    ] + [
-        Obl(name, "session.c",
-            progs=[POP3D],
-            repo=["scan_ulong.c", "fmt_ulong.c", "fmt_uint.c", "str_chr.c", "str_start.c", "substdio.c", "byte_copy.c",
-                  "stralloc_pend.c", "stralloc_opys.c", "stralloc_opyb.c", "stralloc_cats.c", "stralloc_catb.c"],
-            lib=["ideal_substdio.c", "ideal_getln.c", "arena_stralloc.c"],
-            defines={"ARENA_CAP": 24, "ARENA_SLOTS": 2},
-            sysrename=["_exit", "close", "unlink", "rename"],
-            grid=[g for k in ks for g in session_grid(k)], std_checks=std, backend="cadical",
-            # sizes 7 and 120: STAT total <= 127, 3 digits (the unwinding assertion proves it)
-            unwind={"fmt_ulong": 5, "scan_ulong": 5},
-            unwind_default=66,
-            timeout=900,
-            expect_witnesses=session_witnesses)
-        for (name, ks, std) in [("session_step", [1], True), ("session", [2] if quick else [2, 3], False)]
-    ]
+IDEAL = "substdio_get/put/puts/flush, getln: ideal byte streams (lib/ideal_substdio.c, lib/ideal_getln.c); contracts proved on the real code in C20 layer-0 lemmas"
+ARENA = "stralloc_ready/readyplus: fixed-capacity arena (growth arithmetic: C20 lemma)"
+EXIT = "_exit: records status, runs the exit-path assertions, ends the path"
+STRA = ["stralloc_pend.c", "stralloc_opys.c", "stralloc_opyb.c", "stralloc_cats.c", "stralloc_catb.c", "byte_copy.c"]
 
-# verb classes of session.c: 0 STAT LAST NOOP RSET DELE, 1 LIST, 2 UIDL, 3 RETR TOP, 4 QUIT (last step only:
-# a session that quits earlier is a shorter session)
+# session.c verb classes: 0 STAT LAST NOOP RSET DELE, 1 LIST, 2 UIDL, 3 RETR TOP, 4 QUIT (last step only: a session
+# that quits earlier is a shorter session)
 def session_grid(k):
-    import itertools
     out = []
     for combo in itertools.product(*([range(4)] * (k - 1) + [range(5)])):
         g = {"K": k}
@@ -88,7 +56,7 @@ def session_witnesses(p):
         w += ["retr_file_vanished"]
     return w
 
-# popup: line lengths including the LF.  "user a\n" = 7, "user abc\n" = 9, "pass abc\n" = 9, "apop a b\n" = 9
+# popup: line lengths including the LF.  "quit\n" = 5, "user a\n" = 7, "user abc\n" = "pass abc\n" = "apop a b\n" = 9
 POPUP_QUICK = [{"L1": 5}, {"L1": 7}, {"L1": 9}, {"L1": 7, "L2": 7}, {"L1": 9, "L2": 9}, {"L1": 5, "L2": 7, "L3": 7}]
 POPUP_THOROUGH = [{"L1": l} for l in range(1, 13)] + [{"L1": a, "L2": b} for a in (5, 7, 9, 10) for b in (5, 7, 9, 10)] + \
                  [{"L1": a, "L2": b, "L3": c} for a in (5, 7) for b in (5, 7) for c in (7, 8)]
@@ -105,3 +73,163 @@ def popup_witnesses(p):
     if l1 == 9 and l2 == 9 and not l3:
         w += ["user3_pass3"]
     return sorted(set(w))
+
+def popup_lines(p):
+    return p["L1"] + p.get("L2", 0) + p.get("L3", 0)
+
+def obligations(tier):
+    quick = tier == "quick"
+    obls = [
+        Obl("retr_top", "retr.c",
+            progs=[POP3D],
+            repo=["scan_ulong.c", "substdio.c", "stralloc_pend.c"],
+            lib=["ideal_substdio.c", "ideal_getln.c", "arena_stralloc.c"],
+            defines={"ARENA_CAP": 16, "ARENA_SLOTS": 2},
+            sysrename=["_exit", "close"],
+            grid=[{"F": f} for f in ([6] if quick else [7, 8])],
+            unwind=lambda p: {"blast": p["F"] + 2, "getln": p["F"] + 2, "substdio_put": 40, "scan_ulong": 4},
+            unwind_default=lambda p: 3 * p["F"] + 22,
+            timeout=900 if quick else 3000,
+            functions=["qmail-pop3d.c:pop3_top", "qmail-pop3d.c:msgno", "qmail-pop3d.c:blast", "qmail-pop3d.c:okay", "qmail-pop3d.c:put",
+                       "qmail-pop3d.c:puts", "qmail-pop3d.c:flush", "qmail-pop3d.c:err", "scan_ulong.c", "substdio.c:substdio_fdbuf", "stralloc_pend.c"],
+            stubs=[IDEAL, ARENA, EXIT, "open_read (open_read.c) cut: returns descriptor 5 or -1 (symbolic), records the path", "close: records"],
+            assumes=["one message; file content of at most F bytes, every byte value 0..255; command RETR 1 or TOP 1 k, k = 0..9; open may fail"],
+            outside=["files longer than F bytes", "read errors in the middle of a message (session ends)", "k > 9"],
+            claim="RETR/TOP of a file <= F bytes sends exactly: +OK line, every line with LF->CRLF (partial last line completed), "
+                  "leading dots stuffed, TOP limited to header + blank line + k body lines, then the documented extra blank line "
+                  "and the lone-dot terminator, flushed; table unchanged; unreadable file => -ERR",
+            expect_witnesses=["retr", "top", "file_vanished", "retr_dot_line_and_partial_last_line", "top_cut_short", "top_0_header_only"]),
+        Obl("getlist", "getlist.c",
+            progs=[POP3D],
+            repo=["maildir.c", "prioq.c"] + STRA,
+            lib=["ideal_substdio.c", "arena_stralloc.c"],
+            defines={"ARENA_CAP": 32, "ARENA_SLOTS": 2},
+            sysrename=["_exit", "time", "opendir", "readdir", "closedir", "stat", "unlink", "calloc", "realloc"],
+            grid=[{"NN": a, "NC": b} for (a, b) in ([(1, 1), (2, 0), (0, 2)] if quick else [(1, 1), (2, 0), (0, 2), (2, 1), (1, 2), (3, 0), (0, 3)])],
+            unwind_default=12,
+            timeout=900 if quick else 3000,
+            functions=["qmail-pop3d.c:getlist", "maildir.c:maildir_clean", "maildir.c:maildir_scan", "maildir.c:append",
+                       "prioq.c:prioq_insert", "prioq.c:prioq_min", "prioq.c:prioq_delmin", "stralloc_*.c"],
+            stubs=[ARENA, EXIT, "opendir/readdir/closedir/stat/unlink/time: directory model tmp/ (1 file), new/ (NN entries), cur/ (NC entries); "
+                   "2 symbolic name bytes, symbolic mtime around now, symbolic size, stat may fail per entry",
+                   "calloc: static table of 4 messages; realloc: asserts not needed (pq pre-sized to 8, DESIGN 2.3)"],
+            assumes=["NN + NC <= 3 files; names of 1-2 bytes, unique inside a directory; opendir succeeds for new/ and cur/"],
+            outside=["ordering among equal mtimes", "files vanishing between the two stat calls", "more than 3 files", "unreadable new/ or cur/ (die_scan)"],
+            claim="after getlist(): every non-dot, stat-able file of new/ and cur/ older than now is in m[] exactly once with its path and size, "
+                  "unmarked, in non-decreasing mtime order; nothing else is listed except (judgement) files with mtime >= now; nothing "
+                  "is removed except a tmp/ file not accessed for 36 hours",
+            expect_witnesses=lambda p: ["all_listed", "dot_file_skipped", "future_file_skipped", "stale_tmp_removed"]
+                                       + (["reordered_by_mtime"] if p["NN"] + p["NC"] >= 2 else [])),
+        Obl("msgno_huge", "msgno.c",
+            progs=[POP3D],
+            repo=["scan_ulong.c"],
+            lib=["ideal_substdio.c"],
+            sysrename=["_exit"],
+            grid=[{"D": d} for d in ([3, 20] if quick else [1, 3, 10, 19, 20, 21, 25])],
+            unwind=lambda p: {"scan_ulong": p["D"] + 2, "strlen": 48, "substdio_put": 48},
+            unwind_default=lambda p: p["D"] + 2,
+            timeout=600,
+            functions=["qmail-pop3d.c:msgno", "qmail-pop3d.c:err", "scan_ulong.c"],
+            stubs=[IDEAL, EXIT],
+            assumes=["argument = D decimal digits (D concrete per query, digits symbolic); 2 messages, none marked"],
+            outside=["digit strings longer than 25"],
+            claim="msgno accepts a string of D digits iff its decimal value is 1 or 2 (leading zeros allowed) and returns value-1; "
+                  "every other number - zero, 3.., numbers beyond 2^64 - is refused with -ERR",
+            expect_witnesses=lambda p: ["valid_with_leading_zeros", "zero_refused"] + (["huge_refused"] if p["D"] >= 4 else [])),
+        Obl("root_refused", "root.c",
+            progs=[Prog("qmail-pop3d.c", main_as="pop3d_main", cut=["getlist"])],
+            repo=["commands.c", "str_chr.c", "case_diffs.c", "stralloc_opys.c", "stralloc_opyb.c", "byte_copy.c"],
+            lib=["ideal_substdio.c", "arena_stralloc.c"],
+            defines={"ARENA_CAP": 8, "ARENA_SLOTS": 2},
+            sysrename=["_exit", "getuid", "chdir"],
+            unwind={"strlen": 48, "substdio_put": 48},
+            unwind_default=8,
+            timeout=600,
+            functions=["qmail-pop3d.c:main", "qmail-pop3d.c:die_root", "qmail-pop3d.c:die_nomaildir", "qmail-pop3d.c:okay", "commands.c:commands"],
+            stubs=[IDEAL, ARENA, EXIT, "getuid: symbolic uid; chdir: may fail; sig_alarmcatch/sig_pipeignore: no-ops; input: empty"],
+            cuts=["getlist -> recording stub (start-up order only; the scan itself is obligation getlist)"],
+            assumes=["any uid; maildir argument present or not; chdir succeeds or fails"],
+            claim="uid 0: log line on descriptor 2, exit 1, and before that no chdir, no maildir scan, not a byte to the client; "
+                  "otherwise chdir(argv[1]) -> scan -> +OK greeting -> commands; no usable maildir: -ERR, nothing scanned",
+            expect_witnesses=["root_refused", "no_maildir", "normal_startup"]),
+        Obl("popup_commands", "popup_cmd.c",
+            progs=[Prog("qmail-popup.c", main_as="popup_main", cut=["doanddie"])],
+            repo=["commands.c", "str_chr.c", "case_diffs.c", "fmt_uint.c", "fmt_ulong.c", "byte_copy.c",
+                  "stralloc_pend.c", "stralloc_opys.c", "stralloc_opyb.c"],
+            lib=["ideal_substdio.c", "arena_stralloc.c"],
+            defines={"ARENA_CAP": 40, "ARENA_SLOTS": 2},
+            sysrename=["_exit", "getpid", "time"],
+            grid=POPUP_QUICK if quick else POPUP_THOROUGH,
+            # strlen: longest constant string is 33 bytes; strlen on the command buffer stays inside ARENA_CAP
+            unwind=lambda p: {"fmt_ulong": 12, "strlen": 42, "substdio_put": 42,
+                              "commands~    for (;;)": popup_lines(p) + 2,
+                              "commands~  for (;;)": (3 if p.get("L3") else 2 if p.get("L2") else 1) + 2},
+            unwind_default=lambda p: max(popup_lines(p) + 3, 26),
+            timeout=900 if quick else 3000,
+            functions=["qmail-popup.c:main", "qmail-popup.c:pop3_greet", "qmail-popup.c:pop3_user", "qmail-popup.c:pop3_pass",
+                       "qmail-popup.c:pop3_apop", "qmail-popup.c:pop3_quit", "qmail-popup.c:okay", "qmail-popup.c:err_authoriz",
+                       "commands.c:commands", "str_chr.c", "case_diffs.c", "fmt_uint.c", "fmt_ulong.c", "stralloc_*.c"],
+            stubs=[IDEAL, ARENA, EXIT, "getpid = 123, time = 1000000000, sig_*: no-ops"],
+            cuts=["doanddie(user,userlen,pass) -> checks its arguments against the reference and ends the run; its own effect "
+                  "(user NUL pass NUL timestamp NUL on descriptor 3) is proved by obligation popup_auth in the same run"],
+            assumes=["input = 1..3 command lines of concrete lengths (grid), every byte any value but NUL, LF exactly at the line ends"],
+            outside=["NUL bytes in commands", "lines longer than the grid", "more than three commands"],
+            claim="before authentication: greeting with the APOP timestamp; USER name -> +OK; NOOP -> +OK; QUIT -> +OK, exit; PASS after "
+                  "USER / APOP name digest -> checker started with exactly that name and string; every other line (unknown verb, PASS "
+                  "without USER, empty arguments) -> one -ERR reply and no effect at all; exactly one flushed reply per command",
+            expect_witnesses=popup_witnesses),
+        Obl("popup_auth", "popup_auth.c",
+            progs=[Prog("qmail-popup.c", nomain=True)],
+            repo=["fmt_uint.c", "fmt_ulong.c", "byte_zero.c", "substdio.c"],
+            lib=["ideal_substdio.c"],
+            sysrename=["_exit", "close", "pipe", "fork", "execvp", "getpid", "time"],
+            grid=[{"UL": u, "PL": q} for (u, q) in ([(1, 1), (3, 3), (2, 3)] if quick else [(u, q) for u in range(1, 6) for q in range(1, 6)])],
+            unwind={"fmt_ulong": 12, "strlen": 42, "substdio_put": 42, "byte_zero": 34},
+            unwind_default=30,
+            timeout=900,
+            functions=["qmail-popup.c:doanddie", "qmail-popup.c:pop3_greet", "qmail-popup.c:die_pipe", "qmail-popup.c:die_fork",
+                       "qmail-popup.c:die_childcrashed", "qmail-popup.c:die_badauth", "fmt_uint.c", "fmt_ulong.c", "byte_zero.c", "substdio.c:substdio_fdbuf"],
+            stubs=[IDEAL, EXIT, "close/pipe/fork/execvp/wait_pid: descriptor model (pipe gives 3/4 after close(3)); fork returns parent, child or -1; "
+                   "wait status = any exit code or any signal", "getpid = 123, time = 1000000000"],
+            assumes=["user of UL and password of PL non-NUL bytes (lengths concrete per query)"],
+            outside=["write errors on the pipe (die_write)"],
+            claim="doanddie writes exactly user NUL pass NUL '<pid.time@hostname>' NUL to the write end whose read end is the child's "
+                  "descriptor 3, flushes and closes it before waiting; the child closes the write end and execs the subprogram; "
+                  "-ERR iff the child crashed or exited nonzero; the password is wiped",
+            expect_witnesses=["auth_ok", "auth_failed", "child_execs_checker", "fork_failed", "pipe_failed"]),
+    ]
+    for (name, ks, std, szdef, fmtu) in [("session_step", [1], True, {"SZ0": 7, "SZ1": 120}, 4),
+                                         ("session", [2] if quick else [2, 3], False, {"SZ0": 3, "SZ1": 5}, 2)]:
+        obls.append(
+            Obl(name, "session.c",
+                progs=[POP3D],
+                repo=["scan_ulong.c", "fmt_ulong.c", "fmt_uint.c", "str_chr.c", "str_start.c", "substdio.c"] + STRA,
+                lib=["ideal_substdio.c", "ideal_getln.c", "arena_stralloc.c"],
+                # message sizes are concrete: 7 and 120 in the one-step query, 3 and 5 in the sessions (fmt_ulong on the symbolic
+                # message index / STAT total costs one 64-bit divider per possible digit; the unwinding assertion proves the bound)
+                defines=dict({"ARENA_CAP": 24, "ARENA_SLOTS": 2}, **szdef),
+                sysrename=["_exit", "close", "unlink", "rename"],
+                grid=[g for k in ks for g in session_grid(k)], std_checks=std, backend="cadical",
+                unwind={"fmt_ulong": fmtu, "scan_ulong": 5},
+                unwind_default=66,
+                timeout=900 if quick else 3000,
+                functions=["qmail-pop3d.c:pop3_quit", "qmail-pop3d.c:pop3_stat", "qmail-pop3d.c:pop3_list", "qmail-pop3d.c:pop3_uidl",
+                           "qmail-pop3d.c:pop3_dele", "qmail-pop3d.c:pop3_top", "qmail-pop3d.c:pop3_rset", "qmail-pop3d.c:pop3_last",
+                           "qmail-pop3d.c:okay", "qmail-pop3d.c:msgno", "qmail-pop3d.c:dolisting", "qmail-pop3d.c:list", "qmail-pop3d.c:printfn",
+                           "qmail-pop3d.c:blast", "qmail-pop3d.c:pop3commands", "scan_ulong.c", "fmt_ulong.c", "fmt_uint.c", "str_chr.c",
+                           "str_start.c", "stralloc_*.c"],
+                stubs=[IDEAL, ARENA, EXIT, "open_read cut: descriptor or -1 (symbolic per step); unlink: may fail (at most one); rename, close: record",
+                       "handlers reached through the real pop3commands[] table by verb text; commands() itself: popup_commands, C05 resume_next_command"],
+                assumes=["2 messages, each in new/ or cur/ (symbolic), one symbolic name byte each, empty content, concrete sizes",
+                         "the K commands continue an arbitrary session: deletion marks and `last` at the start are symbolic, so K = 1 is the "
+                         "inductive step for sessions of any length",
+                         "arguments of 3 bytes: digits then NUL/space, or starting with a non-digit (digits followed by other junk: documents silent, excluded)",
+                         "case split over verb classes per step (one query per combination, all combinations issued)"],
+                outside=["STAT's count", "more than 2 messages", "arguments longer than 3 bytes (msgno_huge covers long digit strings)",
+                         "two failing unlinks in one QUIT"],
+                claim="for every verb sequence of length K from any marking: numbering fixed; DELE n marks only a valid unmarked n; bad numbers "
+                      "(none, 0, >2, already deleted) => -ERR and no state change; RSET unmarks all; LIST/UIDL [n] show number, size / unique id "
+                      "of exactly the unmarked messages; RETR/TOP open exactly file n; nothing is unlinked or renamed before QUIT; QUIT unlinks "
+                      "exactly the marked files and renames exactly the unmarked new/X to cur/X:2,; std checks on for K = 1",
+                expect_witnesses=session_witnesses))
+    return obls
